@@ -202,6 +202,154 @@ func keyC64(i int) complex64 {
 	return complex(nz, float32(2))
 }
 
+// keys with floating-point parts inside a complex number / struct / array: +0 and -0 are equal in
+// every part, a NaN in any part makes the key unequal to itself
+type cst struct {
+	c complex64
+	i int32
+}
+type arr2f = [2]float32
+
+func keyC128(i int) complex128 {
+	pz, nz := fromBits(0), fromBits(0x8000000000000000)
+	nan, nan2 := fromBits(0x7ff8000000000001), fromBits(0xfff8000000000000)
+	pinf, ninf := fromBits(0x7ff0000000000000), fromBits(0xfff0000000000000)
+	switch i {
+	case 0:
+		return complex(pz, pz)
+	case 1:
+		return complex(nan, pz)
+	case 2:
+		return complex(nz, nz)
+	case 3:
+		return complex(pz, nan)
+	case 4:
+		return complex(pz, nz)
+	case 5:
+		return complex(nan, nan)
+	case 6:
+		return complex(float64(1), nan)
+	case 7:
+		return complex(pinf, nz)
+	case 8:
+		return complex(nz, float64(1))
+	case 9:
+		return complex(pz, float64(1))
+	case 10:
+		return complex(nan2, float64(2))
+	case 11:
+		return complex(ninf, pinf)
+	}
+	return complex(float64(i-10)*0.5, float64(i%5-2))
+}
+
+func keyCst(i int) cst {
+	pz, nz, nan := f32FromBits(0), f32FromBits(0x80000000), f32FromBits(0x7fc00001)
+	switch i {
+	case 0:
+		return cst{complex(pz, pz), 0}
+	case 1:
+		return cst{complex(nan, pz), 0}
+	case 2:
+		return cst{complex(nz, pz), 0}
+	case 3:
+		return cst{complex(pz, nan), 1}
+	case 4:
+		return cst{complex(pz, nz), 1}
+	case 5:
+		return cst{complex(nan, float32(1)), 0}
+	case 6:
+		return cst{complex(nz, nz), 1}
+	case 7:
+		return cst{complex(float32(1), nz), -1}
+	case 8:
+		return cst{complex(float32(1), pz), -1}
+	}
+	return cst{complex(float32(i/3), float32(i%3)), int32(i % 2)}
+}
+
+func keyArrF(i int) arr2f {
+	pz, nz, nan := f32FromBits(0), f32FromBits(0x80000000), f32FromBits(0x7fc00001)
+	switch i {
+	case 0:
+		return arr2f{pz, pz}
+	case 1:
+		return arr2f{nan, pz}
+	case 2:
+		return arr2f{nz, pz}
+	case 3:
+		return arr2f{pz, nan}
+	case 4:
+		return arr2f{nz, nz}
+	case 5:
+		return arr2f{nan, nan}
+	case 6:
+		return arr2f{1, nz}
+	case 7:
+		return arr2f{1, pz}
+	case 8:
+		return arr2f{f32FromBits(0x7f800000), f32FromBits(0xffc00000)}
+	case 9:
+		return arr2f{f32FromBits(0xff800000), f32FromBits(0x7f800000)}
+	}
+	return arr2f{float32(i) * 0.5, float32(-(i % 4))}
+}
+
+// keys of an interface type WITH a method.  The dynamic types *cell and pbox are pointer-shaped: the key is
+// the identity of the pointer, whatever the variable it points to holds (op 'W' writes to that variable).
+type keyer interface{ id() int }
+type cell struct {
+	w   int // first word of the pointee: changed by 'W'
+	idx int
+}
+type pbox struct{ p *cell }
+type ival int
+type sbox struct{ s string }
+
+func (c *cell) id() int { return c.idx }
+func (b pbox) id() int  { return b.p.idx }
+func (v ival) id() int  { return int(v) }
+func (b sbox) id() int  { return len(b.s) }
+
+const nCells = 4096
+
+var cellTab [nCells]*cell
+
+func cellAt(n int) *cell {
+	if cellTab[n] == nil {
+		cellTab[n] = &cell{w: n, idx: n}
+	}
+	return cellTab[n]
+}
+
+func keyIface(i int) keyer {
+	n := i / 4
+	if n >= nCells {
+		return ival(i)
+	}
+	switch i % 4 {
+	case 0:
+		return cellAt(n)
+	case 1:
+		return pbox{cellAt(n)}
+	case 2:
+		return ival(n)
+	}
+	if n == 0 {
+		return nil
+	}
+	return sbox{keyStr(n)}
+}
+
+// *p = ... for the variable that key i points to (no effect on keys that hold no pointer)
+func pokeKey(i int) {
+	n := i / 4
+	if n < nCells && i%4 < 2 {
+		c := cellAt(n)
+		c.w = c.w*31 + 7
+	}
+}
+
 func keyArr(i int) arr2 { return arr2{i, -i} }
 func keySt(i int) st    { return st{i % 4, "s" + itoa(i/4)} }
 
@@ -259,11 +407,39 @@ func keyAny(i int) any {
 	}
 }
 
-func pkInt(k int)     { ws(" I"); wi(k) }
-func pkStr(k string)  { ws(" S"); whex(k) }
-func pkF64(k float64) { ws(" F"); wu(toBits(k)) }
-func pkArr(k arr2)    { ws(" A"); wi(k[0]); wi(k[1]) }
-func pkSt(k st)       { ws(" T"); wi(k.a); whex(k.b) }
+func pkInt(k int)         { ws(" I"); wi(k) }
+func pkStr(k string)      { ws(" S"); whex(k) }
+func pkF64(k float64)     { ws(" F"); wu(toBits(k)) }
+func pkArr(k arr2)        { ws(" A"); wi(k[0]); wi(k[1]) }
+func pkSt(k st)           { ws(" T"); wi(k.a); whex(k.b) }
+func pkC128(k complex128) { ws(" X"); wu(toBits(real(k))); wu(toBits(imag(k))) }
+func pkCst(k cst) {
+	ws(" V")
+	wu(uint64(f32Bits(real(k.c))))
+	wu(uint64(f32Bits(imag(k.c))))
+	wi(int(k.i))
+}
+func pkArrF(k arr2f) { ws(" P"); wu(uint64(f32Bits(k[0]))); wu(uint64(f32Bits(k[1]))) }
+func pkIface(k keyer) {
+	switch x := k.(type) {
+	case nil:
+		ws(" kN")
+	case *cell:
+		ws(" kC")
+		wi(x.idx)
+	case pbox:
+		ws(" kB")
+		wi(x.p.idx)
+	case ival:
+		ws(" kI")
+		wi(int(x))
+	case sbox:
+		ws(" kS")
+		whex(x.s)
+	default:
+		ws(" k?")
+	}
+}
 func pkAny(k any) {
 	switch x := k.(type) {
 	case nil:
@@ -493,6 +669,12 @@ func execOp[K comparable, V any](pm *map[K]V, ops []op, pc int, t *tk[K, V]) int
 		wi(p)
 		whdr(*pm)
 		nl()
+	case 'W':
+		pokeKey(o.a)
+		wb('W')
+		wi(o.a)
+		whdr(*pm)
+		nl()
 	case 'R':
 		doRange(pm, ops, pc, t)
 		return o.d + 1
@@ -667,6 +849,30 @@ func dispatch(kt, vt int, ops []op) bool {
 		run(ops, keySt, pkSt, mkI, rdI)
 	case 17:
 		run(ops, keySt, pkSt, mkB, rdB)
+	case 18:
+		run(ops, keyC128, pkC128, mkZ, rdZ)
+	case 19:
+		run(ops, keyC128, pkC128, mkI, rdI)
+	case 20:
+		run(ops, keyC128, pkC128, mkB, rdB)
+	case 21:
+		run(ops, keyCst, pkCst, mkZ, rdZ)
+	case 22:
+		run(ops, keyCst, pkCst, mkI, rdI)
+	case 23:
+		run(ops, keyCst, pkCst, mkB, rdB)
+	case 24:
+		run(ops, keyArrF, pkArrF, mkZ, rdZ)
+	case 25:
+		run(ops, keyArrF, pkArrF, mkI, rdI)
+	case 26:
+		run(ops, keyArrF, pkArrF, mkB, rdB)
+	case 27:
+		run(ops, keyIface, pkIface, mkZ, rdZ)
+	case 28:
+		run(ops, keyIface, pkIface, mkI, rdI)
+	case 29:
+		run(ops, keyIface, pkIface, mkB, rdB)
 	default:
 		return false
 	}
@@ -690,6 +896,14 @@ func universe(kt, n int) {
 			pkArr(keyArr(i))
 		case 5:
 			pkSt(keySt(i))
+		case 6:
+			pkC128(keyC128(i))
+		case 7:
+			pkCst(keyCst(i))
+		case 8:
+			pkArrF(keyArrF(i))
+		case 9:
+			pkIface(keyIface(i))
 		}
 		nl()
 		if len(out) > 1<<16 {
